@@ -286,7 +286,11 @@ def operator_table(rep, prog, g):
     seen = {}
     for i, (text, clo) in enumerate(tab):
         got = None
-        if isinstance(clo, Clo):
+        if isinstance(clo, tuple) and clo[0] == "value":
+            r = clo[1]
+            if isinstance(r, Adt) and r.name == D.OPERATION:
+                got = prog.variant_name(D.OPERATION, r.variant)
+        elif isinstance(clo, Clo):
             it = Interp(prog, Policy())
             try:
                 r = it.call_closure(clo, [Tok("T", "matched", text, dom="m")])
@@ -334,6 +338,47 @@ def _delim_set(g, p):
     return None
 
 
+def delimiters_semantic(rep, prog, g, rule, real):
+    """decided on the PEG automata of the extracted grammar (not on its spelling): (i) whenever one of the comparator
+    alternatives of simple() succeeds, what follows is a delimiter (end of text, a blank, or `||`); (ii) garbage never
+    fails, consumes no blank and no `||`, and stops in front of a delimiter"""
+    from .. import peg
+    from ..peg import diff, inter, union
+    from .c05 import build
+    from ..wmodels import P as Node
+    try:
+        L, Pg, classes, reps, _, _ = build(prog, g, root="range::range_set", extra_chars="vV.-+xX*<>=~^|")
+        M5, F5 = Pg.den(Node("alt", real))
+        Mg, Fg = Pg.den(g["range::garbage"])
+    except (Inconclusive, KeyError) as e:
+        rep.inconc("%s: %s" % (rule, e))
+        return
+    sp = L.sym(classes["space"])
+    bar = L.sym(classes[("lit", "|")])
+    D0 = union(union(L.eps(), L.concat(sp, L.sigma_star())), L.seq(bar, bar, L.sigma_star()))
+    w = diff(M5, L.seq(L.sigma_star(), L.mark(), D0)).witness()
+    if w is None:
+        rep.ok(rule, 5)
+    else:
+        rep.fail(rule, "range::simple|%s|comparator delimiter" % rule,
+                 "a comparator alternative of simple() succeeds although the text does not continue with a blank, `||` or the end "
+                 "(# marks the end of the match: %r)" % L.word_str(w, reps), example=L.word_str(w, reps))
+    problems = []
+    wf = Fg.witness()
+    if wf is not None:
+        problems.append("garbage fails on %r" % L.word_str(wf, reps))
+    noblank = L.star(L.sym(set(range(L.k)) - classes["space"]))
+    has_barbar = L.seq(L.sigma_star(), bar, bar, L.sigma_star())
+    consumed_ok = diff(noblank, has_barbar)
+    wg = diff(Mg, L.seq(consumed_ok, L.mark(), D0)).witness()
+    if wg is not None:
+        problems.append("garbage consumes a blank or `||`, or stops in front of a non-delimiter: %r" % L.word_str(wg, reps))
+    if not problems:
+        rep.ok(rule)
+    else:
+        rep.fail(rule, "range::garbage|%s|shape" % rule, "; ".join(problems))
+
+
 def delimiters(rep, prog, g):
     rule = "T-DELIMITERS"
     rep.rule(rule, 9, "simple(): every comparator alternative ends at a delimiter {blank, ||, end}; garbage stops at "
@@ -344,40 +389,21 @@ def delimiters(rep, prog, g):
         return
     alts = gram.strip(simple).args
     names = []
+
+    def first_ref(p):
+        p0 = gram.strip(p)
+        if p0.kind == "ref":
+            return p0.extra
+        for a_ in p0.args:
+            if isinstance(a_, gram.P):
+                r = first_ref(a_)
+                if r:
+                    return r
+        return None
     for a in alts:
-        a0 = gram.strip(a)
-        if a0.kind == "terminated":
-            inner = gram.strip(a0.args[0])
-            nm = inner.extra if inner.kind == "ref" else gram.show_p(inner)
-            names.append(nm)
-            ds = _delim_set(g, a0.args[1])
-            is_peek = gram.strip(a0.args[1]).kind == "peek"
-            if ds == DELIMS and is_peek:
-                rep.ok(rule)
-            else:
-                rep.fail(rule, "range::simple|%s|%s delimiter" % (rule, nm),
-                         "alternative %s is not terminated by peek(alt(space1, \"||\", eof)) (found %s)" % (nm, gram.show_p(a0.args[1])))
-        elif a0.kind == "ref":
-            names.append(a0.extra)
-            if a0.extra == "range::garbage":
-                gb = gram.strip(g.get("range::garbage"))
-                good = gb is not None and gb.kind == "repeat_till" and gram.strip(gb.args[0]).kind == "prim" \
-                    and gram.strip(gb.args[0]).extra == "any" and _delim_set(g, gb.args[1]) == DELIMS
-                # the terminator must not consume blanks or `||` (only eof consumes nothing anyway)
-                if good:
-                    term = gram.strip(gb.args[1])
-                    for t in (term.args if term.kind == "alt" else [term]):
-                        t0 = gram.strip(t)
-                        if t0.kind not in ("peek",) and not (t0.kind == "prim" and t0.extra == "eof"):
-                            good = False
-                if good:
-                    rep.ok(rule)
-                else:
-                    rep.fail(rule, "range::garbage|%s|shape" % rule, "garbage does not stop (without consuming) at exactly {blank, ||, end}: %s" % gram.show_p(g.get("range::garbage")))
-            else:
-                rep.fail(rule, "range::simple|%s|%s delimiter" % (rule, a0.extra), "alternative %s has no delimiter check" % a0.extra)
-        else:
-            rep.fail(rule, "range::simple|%s|unknown alternative" % rule, "unrecognised alternative %s" % gram.show_p(a))
+        nm = first_ref(a)
+        names.append(nm if nm else gram.show_p(a))
+    delimiters_semantic(rep, prog, g, rule, [a for a in alts if first_ref(a) != "range::garbage"])
     want = {"range::hyphen", "range::primitive", "range::partial", "range::tilde", "range::caret", "range::garbage"}
     if set(names) != want:
         rep.fail(rule, "range::simple|%s|alternatives" % rule, "alternatives are %s, expected %s" % (names, sorted(want)))
@@ -413,10 +439,28 @@ def delimiters(rep, prog, g):
             rep.inconc("%s: separator of range(): %s" % (rule, e.reason), e.where)
     else:
         rep.fail(rule, "range::range|%s|separator" % rule, "comparators are not `separated(.., simple, <blanks>)`: %s" % gram.show_p(g.get("range::range")))
-    lo = gram.strip(g.get("range::logical_or"))
-    if lo is not None and lo.kind == "delimited" and [gram.strip(x).kind for x in lo.args] == ["prim", "lit", "prim"] \
-            and gram.strip(lo.args[1]).extra == "||" and gram.strip(lo.args[0]).extra == "space0" and gram.strip(lo.args[2]).extra == "space0":
-        rep.ok(rule)
-    else:
-        rep.fail(rule, "range::logical_or|%s|shape" % rule, "logical_or is not space0 \"||\" space0: %s" % gram.show_p(g.get("range::logical_or")))
+    # logical_or: decided on its automaton — it consumes exactly blanks, `||`, blanks (all the blanks there are), and does
+    # not fail when the text continues with blanks and `||`
+    try:
+        from .. import peg
+        from ..peg import diff, inter
+        from .c05 import build
+        L, Pg, classes, reps, _, _ = build(prog, g, root="range::range_set", extra_chars="vV.-+xX*<>=~^|")
+        Mo, Fo = Pg.den(g["range::logical_or"])
+        sp = L.sym(classes["space"])
+        bar = L.sym(classes[("lit", "|")])
+        ws = L.star(sp)
+        nonsp = L.sym(set(range(L.k)) - classes["space"])
+        good = L.seq(ws, bar, bar, ws, L.mark(), peg.union(L.eps(), L.concat(nonsp, L.sigma_star())))
+        w1 = diff(Mo, good).witness()
+        w2 = inter(Fo, L.seq(ws, bar, bar, L.sigma_star())).witness()
+        if w1 is None and w2 is None:
+            rep.ok(rule)
+        else:
+            w = w1 if w1 is not None else w2
+            rep.fail(rule, "range::logical_or|%s|shape" % rule,
+                     "logical_or %s (%r)" % ("consumes something other than blanks, `||`, blanks" if w1 is not None else
+                                             "fails although the text continues with `||`", L.word_str(w, reps)))
+    except (Inconclusive, KeyError) as e:
+        rep.inconc("%s: logical_or: %s" % (rule, e))
     rep.analysed_item("range::simple alternatives %s" % names)
